@@ -145,3 +145,9 @@ pub fn create_index_deltas(
     crate::services::prover::verif_hooks::create_index_deltas(delta, list, &mut issued, &mut revoked);
     (issued.into_iter().collect(), revoked.into_iter().collect())
 }
+
+pub fn credential_subject_encode(
+    subject: &crate::data_types::w3c::credential_attributes::CredentialSubject,
+) -> Result<crate::data_types::credential::CredentialValues> {
+    subject.encode()
+}
